@@ -1,7 +1,6 @@
 use std::iter::once;
 
 use crate::bound::{Bounds, WhereClauseBuilder};
-use crate::syn_utils::expand_self;
 use proc_macro2::{Span, TokenStream, TokenTree};
 use quote::{quote, quote_spanned, ToTokens};
 use structmeta::{Flag, ToTokens};
@@ -141,18 +140,23 @@ fn build_compare_op(
             (body, quote!())
         }
         CompareOp::Eq => {
-            // `Self` cannot be used in a free function: replace it with the type itself.
-            let generics = expand_self(source.generics(), &this_ty);
-            let (impl_g, _, _) = generics.split_for_impl();
-            let wheres = expand_self_in_where_clause(&wheres, &this_ty)?;
+            // The assertions live in a method of a hidden trait implemented for the type itself,
+            // so that `Self` (in the where-clause, in bounds and in `key = ...` expressions) keeps its meaning.
             (
                 quote!(),
                 quote! {
                     const _: () = {
+                        #[allow(dead_code)]
+                        trait __DeriveExEqChecker {
+                            fn __f(&self);
+                        }
                         #[allow(clippy::double_parens)]
                         #[allow(unused_parens)]
-                        fn __f #impl_g (__this: &#this_ty) #wheres {
-                            #body
+                        impl #impl_g __DeriveExEqChecker for #this_ty #wheres {
+                            fn __f(&self) {
+                                let __this = self;
+                                #body
+                            }
                         }
                     };
                 },
@@ -170,14 +174,6 @@ fn build_compare_op(
 
         #checker
     })
-}
-
-fn expand_self_in_where_clause(wheres: &TokenStream, this_ty: &Type) -> Result<TokenStream> {
-    if wheres.is_empty() {
-        return Ok(TokenStream::new());
-    }
-    let wheres: syn::WhereClause = parse2(wheres.clone())?;
-    Ok(expand_self(&wheres, this_ty).to_token_stream())
 }
 
 fn build_partial_eq_body(
